@@ -17,7 +17,7 @@ from .. import doccheck, gen, ooxml, sem
 
 PROFILES = {
     "default": {"hyperlink": 0.0, "vmerge": 0.0, "point_comment": 0.0},
-    "annotations": {"hyperlink": 0.0, "vmerge": 0.0, "point_comment": 0.0, "comment": 0.35, "reply": 0.6, "ins": 0.3,
+    "annotations": {"hyperlink": 0.0, "vmerge": 0.0, "point_comment": 0.0, "overlap_comment": 0.2, "comment": 0.35, "reply": 0.6, "ins": 0.3,
                     "del": 0.3, "subst": 0.2, "field": 0.15, "br": 0.2, "tab": 0.2, "fmt": 0.6, "empty_para": 0.15,
                     "table": 0.3, "nested_table": 0.3, "header": 0.5, "footer": 0.5},
     "vmerge": {"hyperlink": 0.0, "point_comment": 0.0, "table": 0.7, "vmerge": 0.5},
